@@ -54,7 +54,7 @@ EXPLANATION = ("Dispatch constructors and call paths of the three frameworks are
 _counter = [0]
 
 
-_CLASSNAME = {"term": "LateTerminal", "op": "LateOperator", "sumchild": "LateSum"}
+_CLASSNAME = {"term": "LateTerminal", "op": "LateOperator", "sumchild": "LateSum", "opchild": "LateParent"}
 
 
 def reserve(flavor):
@@ -85,6 +85,16 @@ def register_new_type(flavor, uniq=None):
         NewO = ufl_type(num_ops=1, inherit_shape_from_operand=0, inherit_indices_from_operand=0)(
             UFLType(f"LateOperator{uniq}", (Operator,), {"__slots__": (), "__init__": __init__}))
         return NewO, (lambda: NewO(IntValue(3)))
+    if flavor == "opchild":
+        # a late type whose PARENT is a late type too (a plugin shipping a small class hierarchy): the child has no handler of its own, so
+        # the nearest-ancestor rule sends it to the handler named after its late parent when the algorithm has one (round-11 seed c20-k)
+        def __init__(self, a):
+            Operator.__init__(self, (a,))
+        NewP = ufl_type(num_ops=1, inherit_shape_from_operand=0, inherit_indices_from_operand=0)(
+            UFLType(f"LateParent{uniq}", (Operator,), {"__slots__": (), "__init__": __init__}))
+        NewC = ufl_type(num_ops=1, inherit_shape_from_operand=0, inherit_indices_from_operand=0)(
+            UFLType(f"LateChildOf{uniq}", (NewP,), {"__slots__": ()}))
+        return NewC, (lambda: NewC(IntValue(3)))
 
     def __new__(cls, a, b):
         self = Operator.__new__(cls)
@@ -165,7 +175,7 @@ def build(run):
             if dedicated:
                 # the algorithm class defines a handler named after each type that is registered later (a plugin shipping its
                 # own node type together with an algorithm that handles it by name)
-                for fl in ("term", "op", "sumchild"):
+                for fl in ("term", "op", "sumchild", "opchild"):
                     res[fl] = reserve(fl)
                 handled_ = handled_ + tuple(hn for _, hn in res.values())
             reg = lambda fl: register_new_type(fl, res[fl][0] if dedicated else None)      # noqa: E731
@@ -174,23 +184,27 @@ def build(run):
             news = []
             if cellname == "cache-miss":
                 news.append(reg("sumchild"))
+                news.append(reg("opchild"))
                 insts.append(cls())
             elif cellname == "cache-fresh":
                 news.append(reg("op"))
+                news.append(reg("opchild"))
                 cls()
                 insts.append(cls())
             elif cellname == "cache-stale":
                 cls()                                   # populates the class-level cache
                 news.append(reg("term"))
                 news.append(reg("sumchild"))
+                news.append(reg("opchild"))
                 insts.append(cls())                     # must see the new types
             elif cellname == "old-instance-new-type":
                 # one old instance per late type, so that the FIRST use of each old instance after the registrations is an instance of a late
                 # type (a lone terminal, an operator, a Sum subclass): no earlier call may have refreshed its tables
-                insts.extend(cls() for _ in range(4))
+                insts.extend(cls() for _ in range(5))
                 news.append(reg("term"))
                 news.append(reg("op"))
                 news.append(reg("sumchild"))
+                news.append(reg("opchild"))
             inst = insts[-1]
             inst_for = {T: (insts[k] if cellname == "old-instance-new-type" else inst) for k, (T, _mk) in enumerate(news)}
             n = 0
@@ -601,7 +615,7 @@ def build(run):
                         continue
                     cls = make_alg(framework, ("expr", "terminal", "operator", "sum"))
                     insts, news = [], []
-                    fl = itertools.cycle(["sumchild", "term", "op"])
+                    fl = itertools.cycle(["sumchild", "term", "op", "opchild"])
                     for step in hist:
                         if step == "R":
                             news.append(register_new_type(next(fl)))
